@@ -380,10 +380,17 @@ OUTCOMES = {
     'fail_bad_directive': (['>>> # xdoctest: +REQUIRES(notatag_zz)', '>>> mark("{id}")'], 'failed', False),
     'fail_bad_directive_after_skip': (['>>> print("never")  # xdoctest: +SKIP', '>>> # a comment only',
                                        '>>> mark("{id}")  # xdoctest: +REQUIRES(module:too:many:parts)'], 'failed', False),
+    # a doctest that fails after it has bound a name, and doctests whose outcome depends on that name NOT being
+    # there (each doctest has a namespace of its own, whatever the front end)
+    'fail_after_binding': (['>>> mark("{id}")', '>>> leftover_zz = 41', '>>> print("a")', 'b'], 'failed', True),
+    'fail_reads_leftover': (['>>> mark("{id}")', '>>> print(leftover_zz + 1)', '42'], 'failed', True),
+    'pass_no_leftover': (['>>> mark("{id}")', '>>> print("leftover_zz" in globals())', 'False'], 'passed', True),
 }
 
 # kinds whose only fault is a wrong want: with wants switched off (+IGNORE_WANT) they pass
-FAIL_BY_OUTPUT = ('fail_output', 'fail_late', 'fail_output_warns')
+FAIL_BY_OUTPUT = ('fail_output', 'fail_late', 'fail_output_warns', 'fail_after_binding')
+# kinds that look at what an earlier 'fail_after_binding' doctest may have left behind
+LEFTOVER_READERS = ('fail_reads_leftover', 'pass_no_leftover')
 
 OUTCOME_PRELUDE = '''import os
 RUNLOG = []
@@ -408,7 +415,7 @@ class OutcomeModule(object):
         return collections.Counter(t['outcome'] for t in self.enabled())
 
 
-def outcome_module(rng, uid, layout='google', kinds=None, n=None, in_class=True):
+def outcome_module(rng, uid, layout='google', kinds=None, n=None, in_class=True, lead=()):
     """layout google: every doctest in an 'Example:' block; freeform: bare prompts"""
     kinds = kinds or list(OUTCOMES)
     n = n or rng.randint(1, 8)
@@ -416,8 +423,17 @@ def outcome_module(rng, uid, layout='google', kinds=None, n=None, in_class=True)
     src = [OUTCOME_PRELUDE]
     k = 0
     pending_class = None
-    for _ in range(n):
+    prev = None
+    lead = list(lead)
+    for _ in range(max(n, len(lead))):
         kind = rng.choice(kinds)
+        if lead:
+            kind = lead.pop(0)
+        elif prev == 'fail_after_binding' and rng.random() < 0.7:
+            readers = [r for r in LEFTOVER_READERS if r in kinds]
+            if readers:
+                kind = rng.choice(readers)
+        prev = kind
         body, outcome, marks = OUTCOMES[kind]
         i = 's%sk%d' % (uid, k)
         method = in_class and rng.random() < 0.25
